@@ -10,17 +10,19 @@ import Lean
 -/
 open Lean Elab Tactic Meta
 
-/-- the conjuncts of a proof of a conjunction (unfolding reducible definitions) -/
-partial def splitAnd (ty pf : Expr) : MetaM (Array (Expr × Expr)) := do
-  let ty' ← whnfR ty
-  if ty'.isAppOfArity ``And 2 then
-    let a := ty'.getArg! 0
-    let b := ty'.getArg! 1
-    let l ← splitAnd a (mkApp3 (mkConst ``And.left) a b pf)
-    let r ← splitAnd b (mkApp3 (mkConst ``And.right) a b pf)
-    return l ++ r
-  else
-    return #[(ty, pf)]
+/-- the conjuncts of a proof of a conjunction (unfolding reducible definitions); `fuel` bounds the nesting -/
+def splitAnd : Nat → Expr → Expr → MetaM (Array (Expr × Expr))
+  | 0, ty, pf => return #[(ty, pf)]
+  | fuel + 1, ty, pf => do
+    let ty' ← whnfR ty
+    if ty'.isAppOfArity ``And 2 then
+      let a := ty'.getArg! 0
+      let b := ty'.getArg! 1
+      let l ← splitAnd fuel a (mkApp3 (mkConst ``And.left) a b pf)
+      let r ← splitAnd fuel b (mkApp3 (mkConst ``And.right) a b pf)
+      return l ++ r
+    else
+      return #[(ty, pf)]
 
 elab "fwd " t:term : tactic => withMainContext do
   let e ← elabTerm t none
@@ -65,7 +67,7 @@ elab "fwd " t:term : tactic => withMainContext do
       if open_.isEmpty then
         if pf.hasExprMVar then throwError "mvars left"
         let pfTy ← instantiateMVars (← inferType pf)
-        for (cty, cpf) in ← splitAnd pfTy pf do
+        for (cty, cpf) in ← splitAnd 16 pfTy pf do
           let mut known := false
           for d in lctx do
             if d.isImplementationDetail then continue
